@@ -128,12 +128,17 @@ def _work(chunk):
 
 
 def _nomemo_work(chunk):
+    import decaylanguage.modeling.amplitudechain as ac
+    memo = ac.particle_from_string_name
     G.uninstall_lookup_memo()
-    res = []
-    for label, text in chunk:
-        fails, _ = compare(text)
-        res.append((label, text, fails))
-    return res
+    try:
+        res = []
+        for label, text in chunk:
+            fails, _ = compare(text)
+            res.append((label, text, fails))
+        return res
+    finally:
+        ac.particle_from_string_name = memo          # the pool worker is reused for memoised tasks
 
 
 def run(tier="quick", seed=0):
@@ -197,10 +202,11 @@ def run(tier="quick", seed=0):
     entry = dict(
         name="C17.read_ampgen.vs_reference_reader", function=QUAL,
         bound=("5 event types (D0->K-pi+pi+pi-, conjugate, D0->pi+pi-pi+pi-, D0->K+K-pi+pi-, D+->K-pi+pi+); every selection of "
-               "1 or 2 of the 4..14 top-line templates per event type plus sliding windows of 3 and 4; alternative counts "
-               f"0..3 exhaustive for the first {3 if tier == 'thorough' else 2} bare names of a selection (others cycled); depth <= 3; "
-               "option absent/0/1 x start/middle/end, 7 layouts, 4 line orders, 4 table variants "
-               + ("(option variants exhaustive per selection; layout/order/table cycled)" if tier == "thorough" else "(cycled)")),
+               "1 or 2 of the 4..14 top-line templates per event type plus sliding windows of 3 and 4; alternative counts 0..3 "
+               + ("exhaustive for the first 3 bare names of a selection" if tier == "thorough" else
+                  "exhaustive for the first 2 bare names of a selection (first name only for selections of 2 lines)")
+               + " (others cycled); depth <= 3; option absent/0/1 x start/middle/end, 7 layouts, 4 line orders, 4 table variants "
+               + ("(option variants exhaustive for selections of 1, 3, 4 lines; layout/order/table cycled)" if tier == "thorough" else "(cycled)")),
         evaluations=len(results) + len(plain_res), distinct_nontrivial=nontrivial,
         rule=("one evaluation = one text read by the real reader and compared in full with the reference reader; "
               "distinct = distinct text (sha256); non-trivial = the reference reader finds >= 1 amplitude of the event-type "
